@@ -25,6 +25,17 @@ WHEN = {'WHEN_RECEIVED': 0, 'WHEN_EXECUTED': 1, 'WHEN_SAVED': 2}
 
 def generate(src):
     fdef = src.func(REL, 'Receiver.callback')
+    # ---- role binding: the locals the contract talks about are found by what they are assigned from, not by their names
+    def assigned_from(callee):
+        for n_ in ast.walk(fdef):
+            if isinstance(n_, ast.Assign) and len(n_.targets) == 1 and isinstance(n_.targets[0], ast.Name):
+                v_ = n_.value.value if isinstance(n_.value, ast.Await) else n_.value
+                if isinstance(v_, ast.Call) and ast.unparse(v_.func) == callee: return n_.targets[0].id
+        raise Unsupported(f"callback: no local is assigned from {callee}(...)")
+    MSG = assigned_from('self.broker.formatter.loads'); TASK = assigned_from('self.broker.find_task'); RES = assigned_from('self.run_task')
+    mws = {n_.target.id for n_ in ast.walk(fdef) if isinstance(n_, ast.For) and ast.unparse(n_.iter) == 'self.broker.middlewares' and isinstance(n_.target, ast.Name)}
+    if len(mws) != 1: raise Unsupported("callback: the middleware loops do not share one loop variable")
+    MW = mws.pop()
     for n, p in [('TaskiqError', 'Exception'), ('NoResultError', 'TaskiqError')]: CLS.add(n, p)
     ACK = Int('ack_time'); ackable, ack_async, raise_err = Bool('message_is_ackable'), Bool('ack_is_async'), Bool('raise_err')
     NMW = Int('n_middlewares'); over = Function('overridden', IntSort(), IntSort(), BoolSort()); isasync = Function('hook_is_async', IntSort(), IntSort(), BoolSort())
@@ -44,17 +55,17 @@ def generate(src):
         f = st.fork(); setG(f, skipped_by='parse_labels raised'); K['exc'](f, raise_any(f, 'Exception'))
     def h_find_task(ex, st, e, recv, args, kw, k, K):
         t = fresh('task'); st.pc.append(Or(t == Val.none, Val.is_ref(t)))
-        ob(st, "callback/find_task: looked up by the decoded message's task name  [C01]", BoolVal(ast.unparse(e.args[0]) == 'taskiq_msg.task_name') if e.args else BoolVal(False))
+        ob(st, "callback/find_task: looked up by the decoded message's task name  [C01]", BoolVal(ast.unparse(e.args[0]) == MSG + '.task_name') if e.args else BoolVal(False))
         setG(st, task=t); return k(st, t)
     def h_hook(kind):
         def h(ex, st, e, recv, args, kw, k, K):
-            i = st.env.get('__i'); kk = KIND[kind]
+            i = G(st).get('__i'); kk = KIND[kind]
             if i is None: raise Unsupported(f"middleware.{kind} called outside a loop over self.broker.middlewares")
             a0 = to_val(args[0]) if args else Val.none
             def eff(s, k2, K2):
                 g = G(s)
                 ob(s, f"callback/{kind}: hook is overridden  [C10]", over(kk, i))
-                ob(s, f"callback/{kind}: receives the current message  [C10]", a0 == to_val(s.env['taskiq_msg']))
+                ob(s, f"callback/{kind}: receives the current message  [C10]", a0 == to_val(s.env[MSG]))
                 if kind == 'pre_execute': ob(s, "callback/pre_execute: before the task function  [C10]", Not(g['exec_started']))
                 if kind == 'post_execute':
                     ob(s, "callback/post_execute: after execution, before saving  [C10]", And(g['exec_finished'], g['saves'] == 0, Not(g['save_done'])))
@@ -86,7 +97,7 @@ def generate(src):
         def eff(s, k2, K2):
             g = G(s)
             ob(s, "callback/run_task: at most once  [C01]", Not(g['exec_started']))
-            ob(s, "callback/run_task: executes the (possibly middleware-replaced) decoded message  [C01/C06]", msg == to_val(s.env['taskiq_msg']))
+            ob(s, "callback/run_task: executes the (possibly middleware-replaced) decoded message  [C01/C06]", msg == to_val(s.env[MSG]))
             ob(s, "callback/run_task: with the function registered for that task  [C01/C06]", And(Val.is_ref(g['task']), tgt == s.heap.field('original_func')[Val.a(g['task'])]))
             setG(s, exec_started=BoolVal(True), exec_finished=BoolVal(True), ran_msg=msg)
             ok = s.fork(); r = alloc(ok); setG(ok, result=r, noresult=fresh('result_error_is_NoResultError', BoolSort())); k2(ok, PyObj(r, 'result'))
@@ -108,10 +119,10 @@ def generate(src):
             b = s.fork(); x = raise_any(b, 'BaseException'); b.pc.append(Not(CLS.sub_expr(b.heap.cls_of[Val.a(x)], 'Exception'))); setG(b, save_base_exc=BoolVal(True)); K2['exc'](b, x)
         return k(st, Tok(eff))
     def h_isinstance(ex, st, e, recv, args, kw, k, K):
-        what = ast.unparse(e.args[1]); subj = ast.unparse(e.args[0])
-        if what == 'AckableMessage' and subj == 'message': return k(st, PyBool(ackable))
-        if what == 'NoResultError' and subj == 'result.error': return k(st, PyBool(G(st)['noresult']))
-        raise Unsupported(f"isinstance({subj}, {what})")
+        what = ast.unparse(e.args[1]); subj = args[0]
+        if what == 'AckableMessage' and is_expr(subj) and subj.eq(MESSAGE): return k(st, PyBool(ackable))          # value-based: the delivered message, under whatever name
+        if what == 'NoResultError' and isinstance(subj, str) and subj == 'RESULT_ERROR': return k(st, PyBool(G(st)['noresult']))
+        raise Unsupported(f"isinstance({ast.unparse(e.args[0])}, {what})")
     def h_for(ex, s, st, k, K):
         if ast.unparse(s.iter) != 'self.broker.middlewares': raise Unsupported("loop over " + ast.unparse(s.iter))
         kinds = [n.func.attr for n in ast.walk(s) if isinstance(n, ast.Call) and isinstance(n.func, ast.Attribute) and n.func.attr in KIND]
@@ -122,48 +133,44 @@ def generate(src):
         def havoc(sx):
             setG(sx, fired={**G(sx)['fired'], kk: fresh('fired', I2B)})
             if kind == 'pre_execute':
-                m = fresh('taskiq_msg'); sx.pc.append(Val.is_ref(m)); sx.env = dict(sx.env); sx.env['taskiq_msg'] = m      # pre_execute may replace the message
-        it = st.fork(); havoc(it); i = fresh('i', IntSort()); it.pc += [i >= 0, i < NMW]; it.facts.append(inv(it, i)); it.env = dict(it.env); it.env['__i'] = i; it.env['middleware'] = PyObj(fresh('mw', IntSort()))
+                m = fresh('taskiq_msg'); sx.pc.append(Val.is_ref(m)); sx.env = dict(sx.env); sx.env[MSG] = m      # pre_execute may replace the message
+        it = st.fork(); havoc(it); i = fresh('i', IntSort()); it.pc += [i >= 0, i < NMW]; it.facts.append(inv(it, i)); setG(it, __i=i); it.env = dict(it.env); it.env[MW] = PyObj(fresh('mw', IntSort()), 'middleware')
         def back(s3): ob(s3, f"callback/{kind}-loop/inv-preserved: overridden hooks fire in registration order, each once  [C10]", inv(s3, i + 1))
         K2 = dict(K); K2['cont'] = back
         K2['brk'] = lambda s3: ob(s3, f"callback/{kind}-loop: no early exit from the hook loop  [C10]", BoolVal(False))
         ex.block(s.body, it, back, K2)
-        out = st.fork(); havoc(out); out.facts.append(inv(out, NMW))
+        out = st.fork(); havoc(out); out.facts.append(inv(out, NMW)); setG(out, __i=None)
         if kind == 'post_execute': setG(out, post_execute_done=BoolVal(True))
         return k(out)
 
     class Ex(Exec):
         def ev_Attribute(self, e, st, k, K):
             p = ast.unparse(e)
-            if p == 'message.data': return k(st, fresh('message_data'))
-            if p == 'self.ack_time': return k(st, PyInt(ACK))
             if p.startswith('AcknowledgeType.') and e.attr in WHEN: return k(st, PyInt(IntVal(WHEN[e.attr])))
-            if p in ('taskiq_msg.task_name', 'self.broker.middlewares'): return k(st, fresh(p.replace('.', '_')))
-            if p == 'task.original_func': return k(st, st.heap.field('original_func')[Val.a(to_val(st.env['task']))])
-            if p == 'taskiq_msg.task_id': return k(st, st.heap.field('task_id')[Val.a(to_val(st.env['taskiq_msg']))])
-            if p == 'result.error': return k(st, 'RESULT_ERROR')
             if p.startswith('self.sem') or 'queue' in p:
                 ob(st, "callback/frame: no access to the receiver's semaphores or hand-over queue  [C03]", BoolVal(False))
                 return k(st, fresh('forbidden'))
-            return super().ev_Attribute(e, st, k, K)
+            if e.attr == 'error' and isinstance(e.value, ast.Name) and isinstance(st.env.get(e.value.id), PyObj) and st.env[e.value.id].kind == 'result': return k(st, 'RESULT_ERROR')
+            if p == 'self.ack_time': return k(st, PyInt(ACK))
+            return super().ev_Attribute(e, st, k, K)          # everything else: a pure read of the heap field of the value the name denotes
         def ev_Compare(self, e, st, k, K):
             u = ast.unparse(e)
             for kind, kk in KIND.items():
-                if u == f'middleware.__class__.{kind} != TaskiqMiddleware.{kind}': return k(st, PyBool(over(kk, st.env['__i'])))
-                if u == f'middleware.__class__.{kind} == TaskiqMiddleware.{kind}': return k(st, PyBool(Not(over(kk, st.env['__i']))))
+                if u == f'{MW}.__class__.{kind} != TaskiqMiddleware.{kind}': return k(st, PyBool(over(kk, G(st)['__i'])))
+                if u == f'{MW}.__class__.{kind} == TaskiqMiddleware.{kind}': return k(st, PyBool(Not(over(kk, G(st)['__i']))))
             return super().ev_Compare(e, st, k, K)
         def st_Try(self, s, st, k, K):
             if 'set_result' not in ast.unparse(s): return super().st_Try(s, st, k, K)
             # the statement: the save attempt "has completed" (returned, or failed and was caught) "or was skipped for a no-result outcome"
             def k_done(s2): setG(s2, save_done=BoolVal(True)); return k(s2)
             return super().st_Try(s, st, k_done, K)
-    H = {'logger.*': noop, 'self.broker.formatter.loads': h_loads, 'taskiq_msg.parse_labels': h_parse_labels, 'self.broker.find_task': h_find_task, 'maybe_awaitable': h_maybe_awaitable,
-         'middleware.pre_execute': h_hook('pre_execute'), 'middleware.post_execute': h_hook('post_execute'), 'middleware.post_save': h_hook('post_save'), 'message.ack': h_ack,
+    H = {'logger.*': noop, 'self.broker.formatter.loads': h_loads, MSG + '.parse_labels': h_parse_labels, 'self.broker.find_task': h_find_task, 'maybe_awaitable': h_maybe_awaitable,
+         MW + '.pre_execute': h_hook('pre_execute'), MW + '.post_execute': h_hook('post_execute'), MW + '.post_save': h_hook('post_save'), '*.ack': h_ack,
          'self.run_task': h_run_task, 'self.broker.result_backend.set_result': h_set_result, 'isinstance': h_isinstance, '@for': h_for}
-    ex = Ex(H)
-    st = State(); st.env = {'self': PyObj(Int('self_a')), 'message': fresh('message'), 'raise_err': PyBool(raise_err)}
+    ex = Ex(H); ex.inline_scope = (src, REL, 'Receiver')
+    st = State(); MESSAGE = fresh('message'); st.env = {'self': PyObj(Int('self_a')), 'message': MESSAGE, 'raise_err': PyBool(raise_err)}
     st.pc += [ACK >= 0, ACK <= 2, NMW >= 0, Not(raise_err), st.heap.next > 0]
-    st.ghost = dict(acks=IntVal(0), saves=IntVal(0), exec_started=BoolVal(False), exec_finished=BoolVal(False), save_done=BoolVal(False), save_returned=BoolVal(False), hook_failed=BoolVal(False),
+    st.ghost = dict(__i=None, acks=IntVal(0), saves=IntVal(0), exec_started=BoolVal(False), exec_finished=BoolVal(False), save_done=BoolVal(False), save_returned=BoolVal(False), hook_failed=BoolVal(False),
                     ack_failed=BoolVal(False), run_task_failed=BoolVal(False), save_failed=BoolVal(False), save_base_exc=BoolVal(False), noresult=BoolVal(False), result=IntVal(-1), ran_msg=Val.none,
                     task=Val.none, post_execute_done=BoolVal(False), skipped_by=None, fired={kk: K(IntSort(), False) for kk in KIND.values()}, __witness=W)
     exits = collections.Counter()
